@@ -96,7 +96,28 @@ var (
 	nPairJoins, nToSeq, nFromSeq   = names(pairJoins), names(toSeqJoins), names(fromSeqJoins)
 )
 
-func pick(rng *rand.Rand, xs []string) string { return xs[rng.Intn(len(xs))] }
+// pick chooses a name; the functions that empty a list altogether are chosen less often, so that deep trees
+// still deliver elements.
+func pick(rng *rand.Rand, xs []string) string {
+	weight := func(n string) int {
+		switch n {
+		case "ff", "pff", "nil", "pnil", "tnil", "fnil":
+			return 1
+		}
+		return 5
+	}
+	total := 0
+	for _, n := range xs {
+		total += weight(n)
+	}
+	r := rng.Intn(total)
+	for _, n := range xs {
+		if r -= weight(n); r < 0 {
+			return n
+		}
+	}
+	return xs[0]
+}
 
 type gen struct {
 	rng   *rand.Rand
@@ -104,7 +125,10 @@ type gen struct {
 }
 
 func (g *gen) slice() *Expr {
-	n := g.rng.Intn(6)
+	n := 1 + g.rng.Intn(5)
+	if g.rng.Intn(10) == 0 {
+		n = 0
+	}
 	xs := make([]int, n)
 	for i := range xs {
 		xs[i] = g.rng.Intn(6)
@@ -115,20 +139,20 @@ func (g *gen) slice() *Expr {
 // seq generates a seq-kind expression of depth exactly d on at least one branch.
 func (g *gen) seq(d int) *Expr {
 	if d == 0 {
-		switch r := g.rng.Intn(10); {
-		case r < 6:
+		switch r := g.rng.Intn(20); {
+		case r < 14:
 			return g.slice()
-		case r < 9:
+		case r < 19:
 			return eFrom(g.rng.Intn(6))
 		default:
 			return eNil()
 		}
 	}
-	ops := []string{"tw", "dw", "flt", "map", "plus", "plus", "join"}
+	ops := []string{"tw", "dw", "flt", "map", "plus", "plus", "plus", "join", "join"}
 	if g.pairs {
-		ops = append(ops, "toseq", "toseq")
+		ops = append(ops, "toseq", "toseq", "toseq")
 	}
-	switch op := pick(g.rng, ops); op {
+	switch op := ops[g.rng.Intn(len(ops))]; op {
 	case "tw", "dw", "flt":
 		return &Expr{Op: op, P: pick(g.rng, nSeqPreds), E: g.seq(d - 1)}
 	case "map":
@@ -148,19 +172,21 @@ func (g *gen) seq(d int) *Expr {
 
 func (g *gen) pair(d int) *Expr {
 	if d == 0 {
-		switch r := g.rng.Intn(10); {
-		case r < 4:
+		switch r := g.rng.Intn(20); {
+		case r < 12:
 			x := g.rng.Intn(6)
 			return ePair(10+x, x)
-		case r < 6:
+		case r < 19:
 			return ePair(g.rng.Intn(16), g.rng.Intn(6))
-		case r < 9:
-			return &Expr{Op: "fromseq", J: "kv", E: g.slice()}
 		default:
 			return eNil()
 		}
 	}
-	switch op := pick(g.rng, []string{"tw", "dw", "flt", "map", "plus", "plus", "join", "fromseq"}); op {
+	if d == 1 && g.rng.Intn(2) == 0 {
+		return &Expr{Op: "fromseq", J: "kv", E: g.slice()} // the canonical key-value list (key = 10 + value)
+	}
+	ops := []string{"tw", "dw", "flt", "map", "plus", "plus", "plus", "join", "join", "fromseq", "fromseq"}
+	switch op := ops[g.rng.Intn(len(ops))]; op {
 	case "tw", "dw", "flt":
 		return &Expr{Op: op, P: pick(g.rng, nPairPreds), E: g.pair(d - 1)}
 	case "map":
